@@ -74,3 +74,32 @@ func TestProbe(t *testing.T) {
 		}
 	}
 }
+
+// TestClassify (manual aid, skipped unless C18_CLASSIFY lists case files separated by ':'): prints the known-finding class
+// of every query of the files (range form and instant form).
+func TestClassify(t *testing.T) {
+	list := os.Getenv("C18_CLASSIFY")
+	if list == "" {
+		t.Skip("C18_CLASSIFY not set")
+	}
+	for _, p := range strings.Split(list, ":") {
+		b, err := os.ReadFile(p)
+		if err != nil {
+			t.Fatal(err)
+		}
+		var wrap struct {
+			Case *CaseJ `json:"case"`
+		}
+		var c CaseJ
+		if json.Unmarshal(b, &wrap) == nil && wrap.Case != nil {
+			c = *wrap.Case
+		} else if err := json.Unmarshal(b, &c); err != nil {
+			t.Fatal(err)
+		}
+		for _, q := range c.Queries {
+			qi := q
+			qi.Step, qi.End = 0, qi.Start
+			fmt.Printf("%s: %s [%d..%d/%d] class=%q instant-form class=%q\n", p, q.Expr, q.Start, q.End, q.Step, knownClass(&c.Data, q), knownClass(&c.Data, qi))
+		}
+	}
+}
